@@ -402,6 +402,9 @@ class Interp:
         for m in mods:
             if isinstance(m, tuple) and isinstance(m[0], Ref):
                 allowed.add((m[0].id, m[1]))
+                ov = old.heap[m[0].id].data.get(m[1]) if m[0].id in old.heap and isinstance(old.heap[m[0].id].data, dict) else None
+                if isinstance(ov, Ref) and ov.kind in ("list", "dict"):
+                    allowed.add((ov.id, None))
             elif isinstance(m, Ref):
                 allowed.add((m.id, None))
         for rid, ocell in old.heap.items():
